@@ -581,6 +581,38 @@ pub fn run(tier: &str) -> i32 {
             progs.push(Prog { key: format!("wide|n={n}|reader={reader_pos}"), src, expect: vec![("wide_res".into(), 0, 0, ShaderStages::FRAGMENT | ShaderStages::COMPUTE), ("wide_other".into(), 0, 1, ShaderStages::VERTEX)], steps: n as u64 });
         }
     }
+    // an unbound `var<private>` that every function (entries and helpers) reads and writes: it never appears in a
+    // layout and must not disturb the visibility of the bound variables (chains, forwarders and a spread of the rest)
+    {
+        let n0 = progs.len();
+        for i in 0..n0 {
+            let k = &progs[i].key;
+            if !(k.starts_with("C-") || (thorough && hash64(k) % 6 == 3) || (!thorough && hash64(k) % 32 == 3)) {
+                continue;
+            }
+            // (1, 2 or 3 such variables: an analysis that counts what it has seen can be thrown off by exactly as many
+            // unbound variables as there are bound ones still to find)
+            for n_priv in 1..=3usize {
+                let mut src = String::new();
+                let mut touch = String::new();
+                for j in 0..n_priv {
+                    src.push_str(&format!("var<private> vis_priv{j}: f32;\n"));
+                    touch.push_str(&format!("    vis_priv{j} = vis_priv{j} + 1.0;\n"));
+                }
+                for line in progs[i].src.lines() {
+                    src.push_str(line);
+                    src.push('\n');
+                    let t = line.trim_start();
+                    if (t.starts_with("fn ") || t.starts_with("@vertex fn ") || t.starts_with("@fragment fn ") || t.starts_with("@compute ")) && t.ends_with('{') {
+                        src.push_str(&touch);
+                    }
+                }
+                if naga_check(&src).is_ok() {
+                    progs.push(Prog { key: format!("{}|private-neighbours={n_priv}", progs[i].key), src, expect: progs[i].expect.clone(), steps: progs[i].steps });
+                }
+            }
+        }
+    }
     // identifier styles of the resource variables (camelCase, UPPER): every 16th program in quick
     {
         let n0 = progs.len();
